@@ -176,6 +176,11 @@ impl RequestHandler<Rename> for RenameHandler {
                     let changes = def
                         .definition_and_usages()
                         .into_iter()
+                        // A scope can also be reached through 'super', which keeps its spelling when the scope is renamed
+                        .filter(|dl| {
+                            let sl = codegen.analysis().look_up(dl.span);
+                            sl.file.source_slice(dl.span) != "super"
+                        })
                         .map(|dl| {
                             let loc = to_location(codegen.analysis().look_up(dl.span));
 
